@@ -26,14 +26,14 @@ SPECIES = '[Species]\nA.atomic_number : 1\nA.atomic_mass : 1.25\nB.atomic_number
 def files():
     pair = Ini([['Tabulation', [['target', 'LAMMPS'], ['nr', '4'], ['cutoff', '2.0']]],
                 ['Pair', [['A-A', 'as.buck 1000.0 0.3 32.0'], ['C-A', 'as.morse 1.8 2.0 0.6'], ['B-B', 'as.lj 0.2 2.5'],
-                          ['A-B', 'sum(as.bornmayer 850.0 0.35, as.coul 2.4 -1.2)'], ['B-C', 'as.polynomial 1.0 -2.0 0.5'], ['C-C', 'as.hbnd 120.0 35.0']]]])
+                          ['A-B', '>0 as.zbl 14 8 >=0.8 sum(as.bornmayer 850.0 0.35, as.coul 2.4 -1.2)'], ['B-C', 'as.polynomial 1.0 -2.0 0.5'], ['C-C', 'as.hbnd 120.0 35.0']]]])
     tab = [['nr', '3'], ['cutoff', '2.0'], ['nrho', '3'], ['cutoff_rho', '10.0']]
     sp = [['A.atomic_number', '1'], ['A.atomic_mass', '1.25'], ['B.atomic_number', '2'], ['B.atomic_mass', '4.5'],
           ['C.atomic_number', '6'], ['C.atomic_mass', '12.0'], ['C.lattice_type', 'bcc']]
     eam = Ini([['Tabulation', [['target', 'setfl']] + tab], ['Species', sp],
                ['EAM-Embed', [['B', '>=0 as.polynomial 0.2 -1.3 0.02'], ['A', '>=0 as.polynomial 0.1 -1.0 0.01'], ['C', '>=0 as.polynomial 0.3 -1.6 0.03']]],
-               ['EAM-Density', [['C', '>=0 as.exp_spline 1.1 -1.1 0.03 0 0 0 0.1'], ['A', '>=0 as.exp_spline 0.7 -0.9 0.01 0 0 0 0'], ['B', 'as.exp_spline 0.9 -1.0 0.02 0 0 0 0.05']]],
-               ['Pair', [['A-A', '>=0 as.morse 1.2 2.0 0.3'], ['B-A', '>=0 as.morse 1.3 2.05 0.35'], ['C-C', '>=0 as.morse 1.4 2.1 0.4'], ['A-C', '>=0 as.morse 1.5 2.15 0.45']]]])
+               ['EAM-Density', [['C', '>=0 as.exp_spline 1.1 -1.1 0.03 0 0 0 0.1 >=1.5 product(as.constant 0.5, as.exp_spline 1.1 -1.1 0.03 0 0 0 0.1)'], ['A', '>=0 as.exp_spline 0.7 -0.9 0.01 0 0 0 0'], ['B', 'as.exp_spline 0.9 -1.0 0.02 0 0 0 0.05']]],
+               ['Pair', [['A-A', '>=0 as.morse 1.2 2.0 0.3'], ['B-A', '>=0 as.morse 1.3 2.05 0.35 >=1.0 sum(as.morse 1.3 2.05 0.35, as.constant 0.5)'], ['C-C', '>=0 as.morse 1.4 2.1 0.4'], ['A-C', '>=0 as.morse 1.5 2.15 0.45']]]])
     fs = Ini([['Tabulation', [['target', 'setfl_fs']] + tab], ['Species', sp],
               ['EAM-Embed', [['A', '>=0 as.polynomial 0.1 -1.0 0.01'], ['B', '>=0 as.polynomial 0.2 -1.3 0.02'], ['C', '>=0 as.polynomial 0.3 -1.6 0.03']]],
               ['EAM-Density', [['A->A', '>=0 as.exp_spline 0.1 -1.1 0.02 0 0 0 0'], ['A->B', '>=0 as.exp_spline 0.2 -1.1 0.02 0 0 0 0'],
@@ -52,7 +52,8 @@ def files():
     return out
 
 
-LABEL_MAPS = {'prefix': {'A': 'H', 'B': 'He', 'C': 'Hes', 'X': 'Hx'}, 'charged': {'A': 'Ce3+', 'B': 'Ce4+', 'C': 'O', 'X': 'Ce'}}
+LABEL_MAPS = {'prefix': {'A': 'H', 'B': 'He', 'C': 'Hes', 'X': 'Hx'}, 'charged': {'A': 'Ce3+', 'B': 'Ce4+', 'C': 'O', 'X': 'Ce'},
+              'case': {'A': 'Co', 'B': 'CO', 'C': 'O', 'X': 'co'}}      # labels that differ only in letter case are different species
 
 
 def relabel(ini, mp):
